@@ -63,7 +63,9 @@ Fixpoint replace_node (old new : str) (k : anode) : res (list anode) :=
            end) eks in
       match e_text e with
       | Some (c :: tx) =>
-          if contains old (c :: tx) then
+          (* only text the extraction shows (w:t, m:t) is replaced (fix D33): a break beside deleted text or a
+             field code would be extracted as a newline *)
+          if (contains old (c :: tx) && is_text_like e)%bool then
             wuri <- of_opt KeyError (e_wuri e) ;;
             let lines := split_nl (replace old new (c :: tx)) in
             Ok (interleave (br_of e wuri) (map (fun l => AE (with_text e l) eks) lines))
